@@ -144,8 +144,8 @@ static Task *choose_forced(Task *self, uint32_t site)
 		if (!rs.empty()) {
 			Task *pick = NULL;
 			if (g_spec->replay) {
-				if (self) {
-					std::unordered_map<uint64_t, int>::iterator it = dec_map.find(dkey(self->id, self->ny));
+				{
+					std::unordered_map<uint64_t, int>::iterator it = dec_map.find(self ? dkey(self->id, self->ny) : dkey(0xffff, 0));
 					if (it != dec_map.end())
 						for (size_t n = 0; n < rs.size(); n++) if (rs[n]->id == it->second) pick = rs[n];
 				}
@@ -173,6 +173,7 @@ static Task *choose_forced(Task *self, uint32_t site)
 					pick = rs[r_sched.below(rs.size())];
 				}
 				if (self) rec_decision(self->id, self->ny, pick->id);
+				else rec_decision(0xffff, 0, pick->id);
 			}
 			return pick;
 		}
@@ -229,6 +230,7 @@ static void leave(Task *t)
 {
 	// t has finished (or was unwound); hand the baton on
 	t->st = T_DONE;
+	t->ny++;           // the exit is a decision point of its own (keys must be unique per task)
 	Task *to = NULL;
 	if (!g_teardown) to = choose_forced(t, 0);
 	if (g_teardown) to = next_unfinished();
@@ -355,6 +357,7 @@ void kill_task(int id)
 	if (t == tl_task) {
 		// self-kill: hand the baton on, then unwind
 		t->st = T_DONE;
+		t->ny++;
 		ev(Y_EXIT, t->id, 1);
 		Task *to = NULL;
 		if (!g_teardown) to = choose_forced(t, 0);
